@@ -19,7 +19,7 @@ def run(ctx):
               ('d3.h3.n3.data5.rhs4', D(3, 3, 3, 1, NEXTRA=2, SYMBOLIC_EXTRA=1, NRHS=4), [-4, -1, 1, -1, 0, 0], 2400, ''),
               ('d3.h3.n2.mixed', D(3, 3, 2, 1, DATAT='float', NEXTRA=2, NRHS=2), [-3, -1, 1, -1, 0, 0], 900, 'double coordinates stored as float, exported as double')]
     ctx.bounds.update(dict(trees='Dim 1-3, heights 2-3 (5 thorough), 2-4 particles, block sizes 1..N+1, both grouping modes', values='1-6 data values, 0-4 result values, float/double',
-                           outside='source/target trees (C09 reads them through applyToAllLeaves only); larger trees'))
+                           outside='source/target exports getAllParticlesDataSource/Target, getAllParticlesRhsTarget are decided by the C09 export-rebuild rows (wrappers/w_tsm.cpp), not here; larger trees'))
     ctx.assumptions += ASSUME
     run_specs(ctx, 'w_tree.cpp', 'h_c17', T, expect_reach=(150,))
     return finish(ctx, TEXT)
